@@ -653,7 +653,11 @@ func (pr *Printed) Layout(gap GapFn) *Placed {
 		adv(t.S)
 		pl.EndLine[i] = line
 	}
-	adv(gap(n, false))
+	tail := gap(n, false)
+	if n > 0 && tail != "" && tail[0] == '/' && strings.HasSuffix(pr.Toks[n-1].S, "/") {
+		tail = " " + tail
+	}
+	adv(tail)
 	pl.Src = sb.String()
 	pl.NLines = strings.Count(pl.Src, "\n") + 1
 	if strings.HasSuffix(pl.Src, "\n") {
